@@ -18,7 +18,16 @@ def one(i):
         if a.returncode != 0:
             return i, prop, "PATCH-DOES-NOT-APPLY", ""
         p = subprocess.run(["/verif/bin/z80verify", "-prop", prop, "-no-evidence"], cwd="/verif", env=dict(env, VERIF_REPO=wt), capture_output=True, text=True)
-        key = next((l.strip() for l in p.stdout.splitlines() if "key=" in l), "")
+        key = next((l.strip() for l in p.stdout.splitlines() if "key=" in l and "KNOWN-FINDING" not in l), "")
+        # keep the record current: what the own-property check says today
+        meta.setdefault("results", {})["own_check_today"] = {"outcome": "fired" if p.returncode == 1 else "silent", "first_report": key[:300],
+            "verif_commit": subprocess.run(["git", "-C", "/verif", "rev-parse", "--short", "HEAD"], capture_output=True, text=True).stdout.strip()}
+        if p.returncode == 1:
+            meta["results"]["caught_by_own_property_check"] = True
+            fired = meta["results"].get("checks_fired") or []
+            if prop not in fired:
+                meta["results"]["checks_fired"] = sorted(fired + [prop])
+        json.dump(meta, open(f"/verif/seeded/{i}/meta.json", "w"), indent=1)
         return i, prop, "fired" if p.returncode == 1 else ("silent" if p.returncode == 0 else f"error{p.returncode}"), key[:150]
     finally:
         subprocess.run(["git", "-C", "/repo", "worktree", "remove", "--force", wt], capture_output=True)
